@@ -81,21 +81,62 @@ def _strs(xs):
     return L.lean_list(xs, L.lean_str)
 
 
+class _Scan(dict):
+    """per-fact results of one scan of a function: a value, or the NotRecognised that fact raises when asked for;
+    `frame` = every statement the scan did NOT turn into a model parameter, as source text, in order"""
+
+    def need(self, key, what=None):
+        if key not in self:
+            raise NotRecognised("%s not found" % (what or key))
+        v = self[key]
+        if isinstance(v, Exception):
+            raise v
+        return v
+
+
+def _nodoc(body):
+    return [s for s in body if not (isinstance(s, ast.Expr) and isinstance(s.value, ast.Constant)
+                                     and isinstance(s.value.value, str))]
+
+
+def _indent(txt, pre="    "):
+    return "\n".join(pre + l for l in txt.split("\n"))
+
+
 def _net_facts(tree):
+    """one scan of `_pslinux.net_io_counters`; every fact is extracted independently of the others, every statement
+    that is not turned into a model parameter ends up in `frame` (pinned by the obligation `C09_code_frame`)"""
+    out = _Scan()
+    frame = out["frame"] = []
     fn = L.find_def(tree, "net_io_counters")
-    loops = [n for n in ast.walk(fn) if isinstance(n, ast.For)]
-    if len(loops) != 1:
-        raise NotRecognised("net_io_counters: expected exactly one for loop")
-    loop = loops[0]
-    it = loop.iter
-    if not (isinstance(it, ast.Subscript) and L.dotted(it.value) == "lines" and isinstance(it.slice, ast.Slice)
-            and it.slice.upper is None and it.slice.step is None):
-        raise NotRecognised("net_io_counters: loop is not over lines[k:]")
-    skip = 0 if it.slice.lower is None else L.const(it.slice.lower)
-    rfind = unpack = output = None
-    strip = "?"
-    min_colon = None
-    offset = None
+    loop = None
+    for st in _nodoc(fn.body):
+        if isinstance(st, ast.For) and loop is None:
+            loop = st
+            it = st.iter
+            if (isinstance(it, ast.Subscript) and L.dotted(it.value) == "lines" and isinstance(it.slice, ast.Slice)
+                    and it.slice.upper is None and it.slice.step is None and not st.orelse
+                    and (it.slice.lower is None or (isinstance(it.slice.lower, ast.Constant)
+                                                    and isinstance(it.slice.lower.value, int)
+                                                    and it.slice.lower.value >= 0))):
+                out["skip"] = 0 if it.slice.lower is None else it.slice.lower.value
+                frame.append("for %s in lines[<netSkipLines>:]: <loop>" % L.unparse(st.target))
+            else:
+                out["skip"] = NotRecognised("net_io_counters: loop is not over lines[k:]: %s" % L.unparse(it))
+                frame.append("for %s in %s: <loop>%s" % (L.unparse(st.target), L.unparse(it), " else: ..." if st.orelse else ""))
+        else:
+            frame.append(L.unparse(st))
+    if loop is None:
+        return out
+
+    def put(key, val, st):
+        """first recognised statement of a kind sets the fact; a second one is not part of the model: frame"""
+        if key in out:
+            frame.append(_indent(L.unparse(st)))
+        else:
+            out[key] = val
+            if isinstance(val, Exception):
+                frame.append(_indent(L.unparse(st)))
     for st in loop.body:
         if isinstance(st, ast.Assign) and len(st.targets) == 1 and L.dotted(st.targets[0]) == "fields":
             # fields = line[colon + k:].strip().split()
@@ -104,54 +145,65 @@ def _net_facts(tree):
                   and not v.keywords and isinstance(v.func.value, ast.Call) and isinstance(v.func.value.func, ast.Attribute)
                   and v.func.value.func.attr == "strip" and not v.func.value.args and not v.func.value.keywords)
             sub = v.func.value.func.value if ok else None
-            if not (ok and isinstance(sub, ast.Subscript) and L.dotted(sub.value) == "line" and isinstance(sub.slice, ast.Slice)
-                    and sub.slice.upper is None and sub.slice.step is None and isinstance(sub.slice.lower, ast.BinOp)
-                    and isinstance(sub.slice.lower.op, ast.Add) and L.dotted(sub.slice.lower.left) == "colon"
-                    and isinstance(L.const(sub.slice.lower.right), int) and L.const(sub.slice.lower.right) >= 0):
-                raise NotRecognised("net_io_counters: %s" % L.unparse(st))
-            offset = L.const(sub.slice.lower.right)
+            try:
+                good = (ok and isinstance(sub, ast.Subscript) and L.dotted(sub.value) == "line" and isinstance(sub.slice, ast.Slice)
+                        and sub.slice.upper is None and sub.slice.step is None and isinstance(sub.slice.lower, ast.BinOp)
+                        and isinstance(sub.slice.lower.op, ast.Add) and L.dotted(sub.slice.lower.left) == "colon"
+                        and isinstance(L.const(sub.slice.lower.right), int) and L.const(sub.slice.lower.right) >= 0)
+            except NotRecognised:
+                good = False
+            put("offset", L.const(sub.slice.lower.right) if good else NotRecognised("net_io_counters: %s" % L.unparse(st)), st)
             continue
         if isinstance(st, ast.Assert):
             t = st.test
-            if not (isinstance(t, ast.Compare) and len(t.ops) == 1 and L.dotted(t.left) == "colon"
-                    and isinstance(L.const(t.comparators[0]), int) and L.const(t.comparators[0]) >= 0):
-                raise NotRecognised("net_io_counters: assert %s" % L.unparse(t))
-            k = L.const(t.comparators[0])
-            if isinstance(t.ops[0], ast.Gt):
-                min_colon = k + 1
-            elif isinstance(t.ops[0], ast.GtE):
-                min_colon = k
-            else:
-                raise NotRecognised("net_io_counters: assert %s" % L.unparse(t))
+            val = NotRecognised("net_io_counters: assert %s" % L.unparse(t))
+            try:
+                if (isinstance(t, ast.Compare) and len(t.ops) == 1 and L.dotted(t.left) == "colon"
+                        and isinstance(L.const(t.comparators[0]), int) and L.const(t.comparators[0]) >= 0):
+                    k = L.const(t.comparators[0])
+                    if isinstance(t.ops[0], ast.Gt):
+                        val = k + 1
+                    elif isinstance(t.ops[0], ast.GtE):
+                        val = k
+            except NotRecognised:
+                pass
+            put("min_colon", val, st)
             continue
         if isinstance(st, ast.Assign) and len(st.targets) == 1:
             tgt, val = st.targets[0], st.value
-            if L.dotted(tgt) == "colon" and isinstance(val, ast.Call) and isinstance(val.func, ast.Attribute) \
-                    and L.dotted(val.func.value) == "line" and len(val.args) == 1 and L.const(val.args[0]) == ":":
-                if val.func.attr not in ("rfind", "find"):
-                    raise NotRecognised("colon = line.%s(':')" % val.func.attr)
-                rfind = val.func.attr == "rfind"
-            elif L.dotted(tgt) == "name" and isinstance(val, ast.Call) and isinstance(val.func, ast.Attribute) \
-                    and val.func.attr == "strip" and L.unparse(val.func.value) == "line[:colon]" and not val.keywords:
-                if len(val.args) == 0 or (len(val.args) == 1 and L.const(val.args[0]) is None):
-                    strip = None
-                elif len(val.args) == 1 and isinstance(L.const(val.args[0]), str) \
-                        and all(ord(ch) < 128 for ch in L.const(val.args[0])):
-                    strip = sorted(set(ord(ch) for ch in L.const(val.args[0])))
+            if L.dotted(tgt) == "colon":
+                if (isinstance(val, ast.Call) and isinstance(val.func, ast.Attribute) and L.dotted(val.func.value) == "line"
+                        and len(val.args) == 1 and not val.keywords and isinstance(val.args[0], ast.Constant)
+                        and val.args[0].value == ":" and val.func.attr in ("rfind", "find")):
+                    put("rfind", val.func.attr == "rfind", st)
                 else:
-                    raise NotRecognised("name = line[:colon].strip(%s)" % L.unparse(val.args[0]))
-            elif isinstance(tgt, ast.Tuple) and _is_map_int(val) and L.dotted(val.args[1]) == "fields":
-                unpack = _names(tgt)
-            elif isinstance(tgt, ast.Subscript) and L.dotted(tgt.value) == "retdict" and L.dotted(tgt.slice) == "name":
-                output = _names(val)
-    if rfind is None or unpack is None or output is None or strip == "?":
-        raise NotRecognised("net_io_counters: colon/name/unpack/retdict statements not all recognised")
-    if min_colon is None:
-        raise NotRecognised("net_io_counters: `assert colon > k` not found")
-    if offset is None:
-        raise NotRecognised("net_io_counters: `fields = line[colon + k:].strip().split()` not found")
-    return {"skip": skip, "rfind": rfind, "unpack": unpack, "output": output, "strip": strip, "min_colon": min_colon,
-            "offset": offset}
+                    put("rfind", NotRecognised("net_io_counters: %s" % L.unparse(st)), st)
+                continue
+            if L.dotted(tgt) == "name":
+                r = NotRecognised("net_io_counters: %s" % L.unparse(st))
+                if (isinstance(val, ast.Call) and isinstance(val.func, ast.Attribute) and val.func.attr == "strip"
+                        and L.unparse(val.func.value) == "line[:colon]" and not val.keywords):
+                    if len(val.args) == 0 or (len(val.args) == 1 and isinstance(val.args[0], ast.Constant) and val.args[0].value is None):
+                        r = ("strip", None)
+                    elif (len(val.args) == 1 and isinstance(val.args[0], ast.Constant) and isinstance(val.args[0].value, str)
+                          and all(ord(ch) < 128 for ch in val.args[0].value)):
+                        r = ("strip", sorted(set(ord(ch) for ch in val.args[0].value)))
+                put("strip", r, st)
+                continue
+            if isinstance(tgt, ast.Tuple) and _is_map_int(val) and L.dotted(val.args[1]) == "fields":
+                try:
+                    put("unpack", _names(tgt), st)
+                except NotRecognised as e:
+                    put("unpack", e, st)
+                continue
+            if isinstance(tgt, ast.Subscript) and L.dotted(tgt.value) == "retdict" and L.dotted(tgt.slice) == "name":
+                try:
+                    put("output", _names(val), st)
+                except NotRecognised as e:
+                    put("output", e, st)
+                continue
+        frame.append(_indent(L.unparse(st)))
+    return out
 
 
 def _guard(test):
@@ -215,76 +267,133 @@ def _branch(body):
     return {"name": name_idx, "singles": singles, "lo": lo, "hi": hi, "unpack": unpack, "zeros": zeros}
 
 
+SKIP_COND = "not perdisk and (not is_storage_device(name))"
+
+
 def _disk_facts(tree):
+    """one scan of `_pslinux.disk_io_counters` (outer body + read_procfs); facts independent of each other; every
+    statement that is not turned into a model parameter goes to `frame`"""
+    out = _Scan()
+    frame = out["frame"] = []
     fn = L.find_def(tree, "disk_io_counters")
-    inner = [n for n in fn.body if isinstance(n, ast.FunctionDef) and n.name == "read_procfs"]
-    if not inner:
-        raise NotRecognised("read_procfs not found")
-    rp = inner[0]
-    loops = [n for n in rp.body if isinstance(n, ast.For)]
-    if len(loops) != 1:
-        raise NotRecognised("read_procfs: expected one for loop")
-    body = loops[0].body
-    # fields = line.split(); flen = len(fields)
-    src0 = [L.unparse(s) for s in body[:2]]
-    if src0 != ["fields = line.split()", "flen = len(fields)"]:
-        raise NotRecognised("read_procfs prologue: %r" % src0)
-    chain = body[2]
-    branches = []
-    node = chain
-    while True:
-        if not isinstance(node, ast.If):
-            raise NotRecognised("read_procfs: expected if/elif chain")
-        b = _branch(node.body)
-        b["guard"] = _guard(node.test)
-        branches.append(b)
-        if len(node.orelse) == 1 and isinstance(node.orelse[0], ast.If):
-            node = node.orelse[0]
-            continue
-        # final else must raise ValueError
-        raises = [s for s in node.orelse if isinstance(s, ast.Raise)]
-        if not raises or not isinstance(raises[-1].exc, ast.Call) or L.dotted(raises[-1].exc.func) != "ValueError":
-            raise NotRecognised("read_procfs: final else does not raise ValueError")
-        break
-    y = body[3]
-    if not (isinstance(y, ast.Expr) and isinstance(y.value, ast.Yield)):
-        raise NotRecognised("read_procfs: yield not found after the if chain")
-    ynames = _names(y.value.value)
-    if ynames[0] != "name":
-        raise NotRecognised("yield tuple does not start with name")
-    # outer loop
-    outer = [n for n in fn.body if isinstance(n, ast.For) and L.dotted(n.iter) == "gen"]
-    if len(outer) != 1 or L.dotted(outer[0].target) != "entry":
-        raise NotRecognised("`for entry in gen` not found")
-    entry = ret = None
-    scaled, sector_names, skip = [], set(), None
-    for st in outer[0].body:
-        if isinstance(st, ast.Assign) and isinstance(st.targets[0], ast.Tuple) and L.dotted(st.value) == "entry":
-            entry = _names(st.targets[0])
-        elif isinstance(st, ast.If):
-            if not (len(st.body) == 1 and isinstance(st.body[0], ast.Continue) and not st.orelse):
-                raise NotRecognised("unexpected if in aggregation loop")
-            skip = L.unparse(st.test)
-        elif isinstance(st, ast.AugAssign) and isinstance(st.op, ast.Mult) and isinstance(st.target, ast.Name):
-            scaled.append(st.target.id)
-            sector_names.add(L.dotted(st.value))
-        elif isinstance(st, ast.Assign) and isinstance(st.targets[0], ast.Subscript) \
-                and L.dotted(st.targets[0].value) == "retdict" and L.dotted(st.targets[0].slice) == "name":
-            ret = _names(st.value)
+    rp = None
+    outer = None
+    for st in _nodoc(fn.body):
+        if isinstance(st, ast.FunctionDef) and st.name == "read_procfs" and rp is None:
+            rp = st
+            frame.append("def read_procfs(): <read_procfs>")
+        elif isinstance(st, ast.FunctionDef) and st.name == "read_sysfs":
+            frame.append("def read_sysfs(): <facts sysfs*>")
+        elif isinstance(st, ast.If) and L.unparse(st.test).startswith("os.path.exists("):
+            frame.append("if os.path.exists(...): <fact diskSources> else: <fact diskNoSource>")
+        elif isinstance(st, ast.For) and outer is None and L.dotted(st.iter) == "gen" and L.dotted(st.target) == "entry" \
+                and not st.orelse:
+            outer = st
+            frame.append("for entry in gen: <aggregation loop>")
         else:
-            raise NotRecognised("aggregation loop statement: %s" % L.unparse(st)[:60])
-    if entry is None or ret is None or entry[0] != "name":
-        raise NotRecognised("entry unpack / retdict assignment not recognised")
-    if sector_names - {"DISK_SECTOR_SIZE"}:
-        raise NotRecognised("scaling by %s" % sorted(sector_names))
-    if skip is None:
-        skips = False
-    elif skip == "not perdisk and (not is_storage_device(name))":
-        skips = True
-    else:
-        raise NotRecognised("partition filter condition is `%s`" % skip)
-    return {"branches": branches, "yield": ynames[1:], "entry": entry[1:], "ret": ret, "scaled": scaled,
-            "skips": skips}
+            frame.append(L.unparse(st))
+    # ---- read_procfs
+    if rp is not None:
+        if rp.args.args or rp.args.vararg or rp.args.kwarg or rp.args.kwonlyargs or rp.decorator_list:
+            frame.append("read_procfs: signature %s" % L.unparse(rp.args))
+        loop = None
+        for st in _nodoc(rp.body):
+            if isinstance(st, ast.For) and loop is None and L.unparse(st.iter) == "lines" and L.unparse(st.target) == "line" \
+                    and not st.orelse:
+                loop = st
+                frame.append("read_procfs: for line in lines: <loop>")
+            else:
+                frame.append("read_procfs: " + L.unparse(st))
+        if loop is not None:
+            chain = None
+            seen_yield = False
+            prologue = []
+            for i, st in enumerate(loop.body):
+                src = L.unparse(st)
+                if i < 2 and src == ["fields = line.split()", "flen = len(fields)"][i]:
+                    prologue.append(src)
+                elif isinstance(st, ast.If) and chain is None and len(prologue) == 2:
+                    chain = st
+                elif isinstance(st, ast.Expr) and isinstance(st.value, ast.Yield) and chain is not None and not seen_yield:
+                    seen_yield = True
+                    try:
+                        ynames = _names(st.value.value)
+                        if ynames[:1] != ["name"]:
+                            raise NotRecognised("yield tuple does not start with name")
+                        out["yield"] = ynames[1:]
+                    except NotRecognised as e:
+                        out["yield"] = e
+                        frame.append("read_procfs:     " + src)
+                else:
+                    frame.append("read_procfs:" + _indent(src).replace("\n", "\nread_procfs:"))
+            if len(prologue) != 2:
+                out["branches"] = NotRecognised("read_procfs prologue: %r" % prologue)
+            elif chain is None:
+                out["branches"] = NotRecognised("read_procfs: if/elif chain not found")
+            else:
+                try:
+                    branches = []
+                    node = chain
+                    while True:
+                        bb = _branch(node.body)
+                        bb["guard"] = _guard(node.test)
+                        branches.append(bb)
+                        if len(node.orelse) == 1 and isinstance(node.orelse[0], ast.If):
+                            node = node.orelse[0]
+                            continue
+                        # final else must end by raising ValueError
+                        last = node.orelse[-1] if node.orelse else None
+                        if not (isinstance(last, ast.Raise) and isinstance(last.exc, ast.Call)
+                                and L.dotted(last.exc.func) == "ValueError"):
+                            raise NotRecognised("read_procfs: final else does not raise ValueError")
+                        for x in node.orelse[:-1]:
+                            if not (isinstance(x, ast.Assign) and len(x.targets) == 1 and L.dotted(x.targets[0]) == "msg"):
+                                frame.append("read_procfs: else: " + L.unparse(x))
+                        break
+                    out["branches"] = branches
+                except NotRecognised as e:
+                    out["branches"] = e
+                    frame.append("read_procfs:" + _indent(L.unparse(chain)).replace("\n", "\nread_procfs:"))
+    # ---- aggregation loop
+    if outer is not None:
+        scaled, conds = [], []
+        for st in outer.body:
+            src = L.unparse(st)
+            if isinstance(st, ast.Assign) and len(st.targets) == 1 and isinstance(st.targets[0], ast.Tuple) \
+                    and L.dotted(st.value) == "entry" and "entry" not in out:
+                try:
+                    en = _names(st.targets[0])
+                    if en[:1] != ["name"]:
+                        raise NotRecognised("entry unpack does not start with name")
+                    out["entry"] = en[1:]
+                except NotRecognised as e:
+                    out["entry"] = e
+                    frame.append("loop:" + _indent(src))
+            elif isinstance(st, ast.If) and len(st.body) == 1 and isinstance(st.body[0], ast.Continue) and not st.orelse:
+                conds.append(L.unparse(st.test))
+            elif isinstance(st, ast.AugAssign) and isinstance(st.op, ast.Mult) and isinstance(st.target, ast.Name) \
+                    and L.dotted(st.value) == "DISK_SECTOR_SIZE" and "ret" not in out:
+                scaled.append(st.target.id)
+            elif isinstance(st, ast.Assign) and len(st.targets) == 1 and isinstance(st.targets[0], ast.Subscript) \
+                    and L.dotted(st.targets[0].value) == "retdict" and L.dotted(st.targets[0].slice) == "name" \
+                    and "ret" not in out:
+                try:
+                    out["ret"] = _names(st.value)
+                except NotRecognised as e:
+                    out["ret"] = e
+                    frame.append("loop:" + _indent(src))
+            else:
+                frame.append("loop:" + _indent(src).replace("\n", "\nloop:"))
+        out["scaled"] = scaled
+        # the partition filter: exactly one `if <SKIP_COND>: continue` (true) or none (false); every other
+        # `if ...: continue` is not part of the model
+        out["skips"] = SKIP_COND in conds
+        for c in conds:
+            if c != SKIP_COND:
+                frame.append("loop:    if %s: continue" % c)
+        if conds.count(SKIP_COND) > 1:
+            frame.append("loop:    (partition filter repeated)")
+    return out
 
 
 def _storage_facts(tree):
@@ -335,6 +444,19 @@ def _front_facts(tree, fname, per):
     if empty is None:
         raise NotRecognised("%s: `return {} if %s else None` not found" % (fname, per))
     return empty
+
+
+def _front_frame(tree, fname):
+    """the top-level statements of a front end that run when `nowrap` is false, as source text, in order
+    (an `if nowrap:` statement contributes its else branch; what is done under nowrap=True is property C10's)"""
+    fn = L.find_def(tree, fname)
+    out = []
+    for st in _nodoc(fn.body):
+        if isinstance(st, ast.If) and L.unparse(st.test) == "nowrap":
+            out += [L.unparse(x) for x in st.orelse]
+        else:
+            out.append(L.unparse(st))
+    return out
 
 
 def _front_default(tree, fname, per):
@@ -461,6 +583,15 @@ def _sysfs_facts(tree):
     ynames = _names(y.value.value)
     if ynames[0] != "name":
         raise NotRecognised("read_sysfs: yield tuple does not start with name")
+    return {"root": root, "stat": stat, "take": take, "unpack": unpack, "yield": ynames[1:],
+            "name_replace": name_replace,
+            "shape": [root, L.unparse(walk.iter), L.unparse(t.test), L.unparse(w.items[0].context_expr),
+                      L.unparse(w.body[0])]}
+
+
+def _disk_sources(tree):
+    """the choice of the generator in _pslinux.disk_io_counters (independent of the shape of read_sysfs)"""
+    fn = L.find_def(tree, "disk_io_counters")
     # the choice of the generator
     chain = [n for n in fn.body if isinstance(n, ast.If) and L.unparse(n.test).startswith("os.path.exists(")]
     if len(chain) != 1:
@@ -490,10 +621,7 @@ def _sysfs_facts(tree):
             raise NotRecognised("source selection: final else does not raise")
         nosrc = L.dotted(raises[-1].exc.func)
         break
-    return {"root": root, "stat": stat, "take": take, "unpack": unpack, "yield": ynames[1:], "sources": sources,
-            "nosrc": nosrc, "name_replace": name_replace,
-            "shape": [root, L.unparse(walk.iter), L.unparse(t.test), L.unparse(w.items[0].context_expr),
-                      L.unparse(w.body[0])]}
+    return {"sources": sources, "nosrc": nosrc}
 
 
 def _usage_facts(tree):
@@ -564,9 +692,7 @@ def _usage_percent_shape(tree):
     src = "\n".join(L.unparse(s) for s in body)
     want = ("try:\n    ret = float(used) / total * 100\nexcept ZeroDivisionError:\n    return 0.0\n"
             "else:\n    if round_ is not None:\n        ret = round(ret, round_)\n    return ret")
-    if src != want:
-        raise NotRecognised("usage_percent body changed")
-    return True
+    return src == want     # total: a changed body is the value `false`, which the obligation cfg_usage_percent_shape rejects
 
 
 def facts(snap, F):
@@ -591,22 +717,23 @@ def facts(snap, F):
     stor = lambda: get("stor", lambda: _storage_facts(lin))
     usage = lambda: get("usage", lambda: _usage_facts(posix))
     sysfs = lambda: get("sysfs", lambda: _sysfs_facts(lin))
+    dsrc = lambda: get("dsrc", lambda: _disk_sources(lin))
 
     def runtime():
         return get("rt", lambda: _runtime(snap))
 
-    F.try_add("netSkipLines", "Nat", lambda: L.lean_nat(net()["skip"]), "header lines skipped: `lines[k:]`")
-    F.try_add("netUsesRfind", "Bool", lambda: L.lean_bool(net()["rfind"]),
+    F.try_add("netSkipLines", "Nat", lambda: L.lean_nat(net().need("skip")), "header lines skipped: `lines[k:]`")
+    F.try_add("netUsesRfind", "Bool", lambda: L.lean_bool(net().need("rfind")),
               "the interface name ends at the LAST ':' (`rfind`), not the first")
-    F.try_add("netUnpack", "List String", lambda: _strs(net()["unpack"]),
+    F.try_add("netUnpack", "List String", lambda: _strs(net().need("unpack")),
               "names on the left of `= map(int, fields)` in net_io_counters, in order")
-    F.try_add("netOutput", "List String", lambda: _strs(net()["output"]),
+    F.try_add("netOutput", "List String", lambda: _strs(net().need("output")),
               "names in the tuple stored in retdict[name], in order")
-    F.try_add("netNameStrip", "Option (List Nat)", lambda: L.lean_opt(net()["strip"], lambda cs: L.lean_list(cs, L.lean_nat)),
+    F.try_add("netNameStrip", "Option (List Nat)", lambda: L.lean_opt(net().need("strip", "name = line[:colon].strip(...)")[1], lambda cs: L.lean_list(cs, L.lean_nat)),
               "`name = line[:colon].strip(<chars>)`: none = every whitespace character of str.strip(), some cs = only these")
-    F.try_add("netMinColon", "Nat", lambda: L.lean_nat(net()["min_colon"]),
+    F.try_add("netMinColon", "Nat", lambda: L.lean_nat(net().need("min_colon")),
               "`assert colon > k` (k + 1) / `assert colon >= k` (k): the smallest index of the colon that is accepted")
-    F.try_add("netFieldsOffset", "Nat", lambda: L.lean_nat(net()["offset"]),
+    F.try_add("netFieldsOffset", "Nat", lambda: L.lean_nat(net().need("offset")),
               "`fields = line[colon + k:].strip().split()`: the counters start k characters after the colon's index")
     F.try_add("frontPerDefault", "List String",
               lambda: _strs([_front_default(init, "disk_io_counters", "perdisk"), _front_default(init, "net_io_counters", "pernic")]),
@@ -622,7 +749,7 @@ def facts(snap, F):
 
     def branches():
         out = []
-        for b in disk()["branches"]:
+        for b in disk().need("branches"):
             g = L.lean_list(b["guard"], lambda c: L.lean_pair(L.lean_bool(c[0]), L.lean_nat(c[1])))
             s = L.lean_list(b["singles"], lambda c: L.lean_pair(L.lean_str(c[0]), L.lean_nat(c[1])))
             out.append("(%s, %s, %s, %s, %s, %s, %s)" % (
@@ -634,11 +761,11 @@ def facts(snap, F):
               branches,
               "read_procfs if/elif chain: (guard as disjunction of (isGe, n) on flen, index of name, "
               "`x = int(fields[i])` reads, slice lo, slice hi, unpack names, names set to 0); else → ValueError")
-    F.try_add("diskYield", "List String", lambda: _strs(disk()["yield"]), "the yielded tuple after `name`")
-    F.try_add("diskEntry", "List String", lambda: _strs(disk()["entry"]), "`(name, …) = entry` after `name`")
-    F.try_add("diskRet", "List String", lambda: _strs(disk()["ret"]), "the tuple stored in retdict[name]")
-    F.try_add("diskScaled", "List String", lambda: _strs(disk()["scaled"]), "names multiplied by DISK_SECTOR_SIZE")
-    F.try_add("diskSkipsPartitionsForTotal", "Bool", lambda: L.lean_bool(disk()["skips"]),
+    F.try_add("diskYield", "List String", lambda: _strs(disk().need("yield")), "the yielded tuple after `name`")
+    F.try_add("diskEntry", "List String", lambda: _strs(disk().need("entry")), "`(name, …) = entry` after `name`")
+    F.try_add("diskRet", "List String", lambda: _strs(disk().need("ret")), "the tuple stored in retdict[name]")
+    F.try_add("diskScaled", "List String", lambda: _strs(disk().need("scaled")), "names multiplied by DISK_SECTOR_SIZE")
+    F.try_add("diskSkipsPartitionsForTotal", "Bool", lambda: L.lean_bool(disk().need("skips")),
               "the aggregation loop skips an entry iff `not perdisk and not is_storage_device(name)`")
     F.try_add("storageReplace", "Nat × Nat", lambda: L.lean_pair(*map(L.lean_nat, stor()["replace"])),
               "is_storage_device: name.replace(chr(a), chr(b))")
@@ -670,9 +797,9 @@ def facts(snap, F):
     F.try_add("sysfsUnpack", "List String", lambda: _strs(sysfs()["unpack"]), "read_sysfs: names on the left of the unpack")
     F.try_add("sysfsYield", "List String", lambda: _strs(sysfs()["yield"]), "read_sysfs: the yielded tuple after `name`")
     F.try_add("diskSources", "List (String × String)",
-              lambda: L.lean_list(sysfs()["sources"], lambda c: L.lean_pair(L.lean_str(c[0]), L.lean_str(c[1]))),
+              lambda: L.lean_list(dsrc()["sources"], lambda c: L.lean_pair(L.lean_str(c[0]), L.lean_str(c[1]))),
               "_pslinux.disk_io_counters: `if os.path.exists(P1): gen = G1() elif os.path.exists(P2): gen = G2() else: raise` as [(G, P)]")
-    F.try_add("diskNoSource", "String", lambda: L.lean_str(sysfs()["nosrc"]),
+    F.try_add("diskNoSource", "String", lambda: L.lean_str(dsrc()["nosrc"]),
               "_pslinux.disk_io_counters: the exception raised when no source exists")
     F.try_add("usageAssigns", "List (String × String × String × String)",
               lambda: L.lean_list(usage()["assigns"], lambda a: "(%s)" % ", ".join(L.lean_str(x) for x in a)),
@@ -684,6 +811,16 @@ def facts(snap, F):
     F.try_add("usageOut", "String × String × String",
               lambda: "(%s, %s, %s)" % tuple(L.lean_str(usage()["out"][k]) for k in ("total", "used", "free")),
               "disk_usage: variables passed as sdiskusage(total=, used=, free=)")
+    F.try_add("netFrame", "List String", lambda: _strs(net()["frame"]),
+              "_pslinux.net_io_counters: every statement that is NOT turned into a model parameter by the facts net*, as source "
+              "text in order (statements of the loop body indented); anything added to the function shows up here")
+    F.try_add("diskFrame", "List String", lambda: _strs(disk()["frame"]),
+              "_pslinux.disk_io_counters incl. read_procfs and the aggregation loop: every statement that is NOT turned into a "
+              "model parameter by the facts disk*/sysfs*, as source text in order")
+    F.try_add("frontFrame", "List (List String)",
+              lambda: L.lean_list([_strs(_front_frame(init, "disk_io_counters")), _strs(_front_frame(init, "net_io_counters"))]),
+              "psutil.disk_io_counters / psutil.net_io_counters: the top-level statements that run when nowrap is false, as "
+              "source text in order")
     F.try_add("usagePercentIsRatioTimes100", "Bool", lambda: L.lean_bool(_usage_percent_shape(common)),
               "_common.usage_percent is (float(used)/total)*100, 0.0 on ZeroDivisionError, round(ret, round_)")
 
@@ -920,7 +1057,7 @@ class Impl:
             devs = []
             for k, v in r.items():
                 devs.append([os.fsencode(k).hex(), [[f, int(x)] for f, x in zip(v._fields, v)]])
-            devs.sort()
+            # NOT sorted: the order of the items (= insertion order = order of the lines in the file) is compared
             return {"kind": "perdev", "devs": devs}
         return {"kind": "total", "fields": [[f, int(x)] for f, x in zip(r._fields, r)]}
 
@@ -982,8 +1119,22 @@ def canon_model(out):
     if out is None:
         return None
     if out.get("kind") == "perdev":
-        return {"kind": "perdev", "devs": sorted([[k, v] for k, v in out["devs"]])}
+        return {"kind": "perdev", "devs": [[k, v] for k, v in out["devs"]]}     # in the model's / the promise's order
     return out
+
+
+def as_dict(out):
+    """the answer up to the order of the items (Spec.Expect.same)"""
+    if isinstance(out, dict) and out.get("kind") == "perdev":
+        return {"kind": "perdev", "devs": sorted(out["devs"])}
+    return out
+
+
+def order_free(op):
+    """ops whose promise is a dict up to the order of its items: the counters come from /sys/block, whose listing order is
+    the file system's (theorem C09_sysfs_any_order: Expect.same); everywhere else the order of the lines of the file is
+    promised and compared"""
+    return op.get("op") == "sysfs" and not op.get("procfs")
 
 
 # ------------------------------------------------------------------------------ generators
@@ -1017,7 +1168,51 @@ def distinct_row(rng, n, style, salt):
     return row
 
 
+def zeroed(rng, row, mode):
+    """idle devices: `all` = every counter 0 (an interface that never carried a packet), `some` = each counter 0 with
+    probability 1/2 (the usual state of errs/drop/fifo/merged columns); the other counters stay pairwise distinct"""
+    if mode == "all":
+        return [0] * len(row)
+    if mode == "some":
+        return [0 if rng.random() < 0.5 else v for v in row]
+    return row
+
+
+def zero_mode(rng, idle_case):
+    if idle_case:
+        return "all"
+    r = rng.random()
+    return "all" if r < 0.12 else "some" if r < 0.27 else None
+
+
+# device-class prefixes of the kernel's naming schemes (drivers/net, block drivers): a filter on a class of names
+# (`startswith('dummy')`, `startswith('pmem')`) must meet at least one member
+NET_PREFIXES = [b"lo", b"eth", b"en", b"eno", b"ens", b"enp0s", b"enx", b"wl", b"wlan", b"wlp2s", b"ww", b"wwan", b"dummy", b"veth",
+                b"docker", b"br", b"br-", b"virbr", b"vnet", b"tun", b"tap", b"bond", b"team", b"vlan", b"ppp", b"sit", b"gre", b"gretap",
+                b"ip6tnl", b"ip6gre", b"tunl", b"wg", b"ifb", b"macvlan", b"macvtap", b"ipvlan", b"vxlan", b"geneve", b"can", b"vcan",
+                b"usb", b"ib", b"sl", b"erspan", b"nlmon", b"teql", b"bridge", b"cali", b"flannel.", b"cni", b"lxc", b"lxdbr", b"ovs-",
+                b"nr", b"rose", b"hsr", b"bat", b"xfrm", b"vrf", b"nsim", b"p2p", b"mon.", b"rmnet", b"ccmni", b"bnep", b"eql"]
+DISK_PREFIXES = [b"sd", b"hd", b"vd", b"xvd", b"nvme", b"mmcblk", b"dm-", b"loop", b"md", b"zram", b"sr", b"fd", b"ram", b"nbd",
+                 b"pmem", b"dasd", b"rbd", b"drbd", b"bcache", b"ubd", b"mtdblock", b"scd", b"nullb", b"zd", b"vblk", b"etherd/e",
+                 b"cciss/c", b"ida/c", b"rd/c", b"sx8/", b"i2o/hd", b"ataraid/d", b"mspblk", b"ssd", b"ubiblock", b"rssd", b"skd",
+                 b"rnbd", b"zloop", b"ublkb", b"xd", b"pd", b"pf", b"pcd", b"hdisk", b"emd", b"tapdev", b"iseries/vd", b"mpath"]
+
+
+def class_name(rng, prefixes):
+    pre = rng.choice(prefixes)
+    r = rng.random()
+    if r < 0.5:
+        suf = b"%d" % rng.choice([0, 1, 2, 7, 10, 127, rng.randrange(1000)])
+    elif r < 0.8:
+        suf = bytes(rng.choice(b"abcdefghijklmnopqrstuvwxyz") for _ in range(rng.randrange(1, 3)))
+    else:
+        suf = b"%dn%d" % (rng.randrange(4), rng.randrange(1, 4))
+    return pre + suf
+
+
 def gen_net_name(rng, fam):
+    if fam == "class":
+        return class_name(rng, NET_PREFIXES)
     if fam == "plain":
         return rng.choice([b"lo", b"eth0", b"wlp3s0", b"docker0", b"enp0s31f6", b"br-3f2a1c9d8e7b", b"veth1a2b3c4",
                            b"tun0", b"e", b"abcdef", b"abcde", b"abcdefg"])
@@ -1041,7 +1236,7 @@ def gen_net_name(rng, fam):
     return bytes(rng.choice(NAMECHARS + b":/") for _ in range(n))
 
 
-NET_FAMS = ["plain", "plain", "colon", "colon", "slash", "digits", "high", "innerws", "random", "ctrledge"]
+NET_FAMS = ["plain", "class", "class", "colon", "colon", "slash", "digits", "high", "innerws", "random", "ctrledge"]
 
 FINDING_STRIP = "C09-net-name-strip"
 
@@ -1064,6 +1259,8 @@ def gen_net_case(rng):
     style = rng.choice(["tiny", "small", "mid", "big", "big"])
     ifs, seen = [], set()
     fams = set()
+    idle = n > 0 and rng.random() < 0.06          # a host whose interfaces are all idle
+    zeros = set()
     for k in range(n):
         for _ in range(20):
             fam = rng.choice(NET_FAMS)
@@ -1074,14 +1271,66 @@ def gen_net_case(rng):
             continue
         seen.add(nm)
         fams.add(fam)
-        ifs.append({"name": nm.hex(), "cols": distinct_row(rng, 16, style, k)})
+        zm = zero_mode(rng, idle)
+        if zm:
+            zeros.add(zm)
+        ifs.append({"name": nm.hex(), "cols": zeroed(rng, distinct_row(rng, 16, style, k), zm)})
     return {"op": "net", "h1": H1.hex(), "h2": H2.hex(), "ifs": ifs, "pernic": rng.random() < 0.5}, \
-        {"n": n, "style": style, "fams": sorted(fams)}
+        {"n": len(ifs), "style": style, "fams": sorted(fams), "zeros": sorted(zeros), "idle": idle}
+
+
+def big_net_case(rng, n, pernic):
+    """a container host: n interfaces with 2^64-ish counters (n = 600: more than 200 KB of /proc/net/dev)"""
+    ifs = []
+    for k in range(n):
+        nm = rng.choice([b"veth", b"cali", b"lxc", b"vnet", b"br-"]) + b"%07x" % (k * 7919 + 13)
+        ifs.append({"name": nm.hex(), "cols": zeroed(rng, distinct_row(rng, 16, "big", k), "some" if k % 5 == 0 else None)})
+    return {"op": "net", "h1": H1.hex(), "h2": H2.hex(), "ifs": ifs, "pernic": pernic}, \
+        {"n": n, "style": "big", "fams": ["class"], "zeros": ["some"], "big": True}
+
+
+def big_disk_case(rng, n, perdisk):
+    """a storage host: n device lines (whole disks with up to four partitions each), 20-field layout, 2^64-ish counters"""
+    devs = []
+    b = 0
+    while len(devs) < n:
+        base = b"sd" + bytes([97 + (b // 676) % 26, 97 + (b // 26) % 26, 97 + b % 26])
+        b += 1
+        devs.append({"major": 8 + (b % 7), "minor": (b * 16) % (1 << 20), "name": base.hex(), "part": False,
+                     "rec": gen_rec(rng, "full6", "big", len(devs))})
+        for i in range(1, 1 + b % 5):
+            if len(devs) < n:
+                devs.append({"major": 8 + (b % 7), "minor": (b * 16) % (1 << 20) + i, "name": part_name(base, i).hex(),
+                             "part": True, "rec": gen_rec(rng, "full6", "big", len(devs))})
+    return {"op": "disk", "devs": devs, "perdisk": perdisk}, \
+        {"n": len(devs), "style": "big", "layouts": ["full6"], "whole": sum(1 for d in devs if not d["part"]), "big": True}
 
 
 DISK_BASES = [b"sda", b"sdb", b"sdaa", b"hda", b"vda", b"xvda", b"nvme0n1", b"nvme1n1", b"mmcblk0", b"dm-0", b"dm-12",
               b"loop0", b"loop7", b"md127", b"zram0", b"sr0", b"cciss/c0d0", b"cciss/c0d1", b"ida/c0d0", b"rd/c0d0",
               b"nbd0", b"ram0", b"\xe9disk", b"d\xff\x80"]
+
+
+DISK_BASES_SET = set()
+
+
+def disk_bases(rng, n):
+    """n distinct whole-disk names: the fixed pool, names built from the kernel's device-class prefixes, random tokens"""
+    out = []
+    for _ in range(n * 5):
+        if len(out) == n:
+            break
+        r = rng.random()
+        if r < 0.45:
+            nm = rng.choice(DISK_BASES)
+        elif r < 0.9:
+            nm = class_name(rng, DISK_PREFIXES)
+        else:
+            nm = bytes(rng.choice(NAMECHARS + b"/:") for _ in range(rng.randrange(1, 12)))
+        if nm in (b".", b"..") or b"!" in nm or nm in out:
+            continue
+        out.append(nm)
+    return out
 
 
 def part_name(base, i):
@@ -1090,13 +1339,15 @@ def part_name(base, i):
     return base + b"%d" % i
 
 
+DISK_BASES_SET.update(DISK_BASES)
+DISK_BASES_SET.update(part_name(b, i) for b in DISK_BASES for i in range(1, 9))
 LAYOUTS = ["full0", "full4", "full6", "fullN", "part", "old24"]
 
 
-def gen_rec(rng, layout, style, salt):
+def gen_rec(rng, layout, style, salt, zm=None):
     if layout == "part":
-        return {"k": "part", "v": distinct_row(rng, 4, style, salt)}
-    row = distinct_row(rng, 24, style, salt)
+        return {"k": "part", "v": zeroed(rng, distinct_row(rng, 4, style, salt), zm)}
+    row = zeroed(rng, distinct_row(rng, 24, style, salt), zm)
     if layout == "old24":
         return {"k": "old24", "s": row[:11], "last": row[11]}
     k = {"full0": 0, "full4": 4, "full6": 6}.get(layout)
@@ -1111,27 +1362,40 @@ def gen_disk_case(rng):
     style = rng.choice(["tiny", "small", "mid", "big", "big"])
     mixed = rng.random() < 0.7
     lay0 = rng.choice(LAYOUTS)
-    bases = rng.sample(DISK_BASES, ndisks)
+    bases = disk_bases(rng, ndisks)
     devs = []
     lays = set()
     big = rng.random() < 0.1
+    idle = rng.random() < 0.06                       # every device idle since boot (loop0..7, ram0.. of a fresh host)
+    zeros = set()
+    taken = set()
     for bi, base in enumerate(bases):
+        names = [base] + [part_name(base, i) for i in range(1, 9)]
+        if any(x.replace(b"/", b"!") in taken for x in names):
+            continue                                 # (sda + partition 1 = sda1 vs a disk called sda1)
+        taken.update(x.replace(b"/", b"!") for x in names)
         lay = rng.choice(LAYOUTS) if mixed else lay0
         lays.add(lay)
         whole_is_part = rng.random() < 0.04          # a whole-disk name the kernel does not list in /sys/block
+        zm = zero_mode(rng, idle)
+        zeros.update([zm] if zm else [])
         devs.append({"major": rng.choice([3, 8, 8, 65, 179, 253, 259, 7, 1000, 12345]), "minor": rng.choice([0, 16, 32, 1 << 20]),
-                     "name": base.hex(), "part": whole_is_part, "rec": gen_rec(rng, lay, style, len(devs))})
+                     "name": base.hex(), "part": whole_is_part, "rec": gen_rec(rng, lay, style, len(devs), zm)})
         nparts = rng.choice([0, 0, 1, 2, 3, 8 if big else 2])
         for i in range(1, nparts + 1):
             layp = rng.choice(LAYOUTS) if mixed else lay0
             lays.add(layp)
+            zm = zero_mode(rng, idle)
+            zeros.update([zm] if zm else [])
             devs.append({"major": devs[-1]["major"], "minor": i, "name": part_name(base, i).hex(),
-                         "part": rng.random() < 0.97, "rec": gen_rec(rng, layp, style, len(devs))})
+                         "part": rng.random() < 0.97, "rec": gen_rec(rng, layp, style, len(devs), zm)})
     if rng.random() < 0.3:
         rng.shuffle(devs)
     devs = devs[:40]
     return {"op": "disk", "devs": devs, "perdisk": rng.random() < 0.5}, \
-        {"n": len(devs), "style": style, "layouts": sorted(lays), "whole": sum(1 for d in devs if not d["part"])}
+        {"n": len(devs), "style": style, "layouts": sorted(lays), "whole": sum(1 for d in devs if not d["part"]),
+         "zeros": sorted(zeros), "idle": idle and bool(devs),
+         "classname": any(bytes.fromhex(d["name"]) not in DISK_BASES_SET for d in devs)}
 
 
 def render_net_line(name, cols):
@@ -1292,18 +1556,26 @@ def gen_sysfs_case(rng):
     style = rng.choice(["tiny", "small", "mid", "big", "big"])
     # one kernel = one stat layout: 11, 15, 17 fields; other extensions only where /proc/diskstats is not rendered
     extlen = rng.choice([0, 4, 6, 6] + ([9] if procfs else [1, 2, 3, 5, 9]))
-    bases = rng.sample(DISK_BASES, ndisks)
+    bases = []
+    taken = set()
+    for base in disk_bases(rng, ndisks):
+        names = [(base if i == 0 else part_name(base, i)).replace(b"/", b"!") for i in range(0, 4)]
+        if not any(x in taken for x in names):
+            taken.update(names)
+            bases.append(base)
+    ndisks = len(bases)
     disks = []
     salt = 0
     nparts_total = 0
+    idle = rng.random() < 0.06
     for base in bases:
         major = rng.choice([3, 8, 65, 179, 253, 259, 7])
         minor = rng.choice([0, 16, 32])
-        row = distinct_row(rng, 11 + extlen, style, salt)
+        row = zeroed(rng, distinct_row(rng, 11 + extlen, style, salt), zero_mode(rng, idle))
         salt += 1
         parts = []
         for i in range(1, rng.choice([0, 0, 1, 2, 3]) + 1):
-            prow = distinct_row(rng, 11 + extlen, style, salt)
+            prow = zeroed(rng, distinct_row(rng, 11 + extlen, style, salt), zero_mode(rng, idle))
             salt += 1
             parts.append({"minor": minor + i, "name": hx(part_name(base, i)), "s": prow[:11], "ext": prow[11:],
                           "others": gen_other_files(rng, major, minor + i), "attrs": gen_attr_dirs(rng) if rng.random() < 0.4 else []})
@@ -1435,9 +1707,11 @@ def gen_usage_case(rng):
     elif fam == "reserved":
         bfree = rng.randrange(0, blocks + 1)
         bavail = 0
-    elif fam == "weird":                 # pseudo file systems: free > total, avail > free
+    elif fam == "weird":                 # pseudo file systems: free > total, avail > free; f_frsize = 0
         bfree = blocks + rng.randrange(0, 1000)
         bavail = rng.randrange(0, 2 * blocks + 1000)
+        if rng.random() < 0.4:
+            frsize = 0
     elif fam == "huge":
         blocks = rng.randrange(2**60, 2**64)
         bfree = rng.randrange(0, blocks)
@@ -1476,6 +1750,14 @@ def features(op, meta):
             f.add("net:empty")
         for x in meta.get("fams", []):
             f.add("netname:" + x)
+        for x in meta.get("zeros", []):
+            f.add("net:row with %s counters 0" % x)
+        if meta.get("idle"):
+            f.add("net:every interface idle (all counters 0)")
+        if any(c == 0 for i in op["ifs"] for c in i["cols"]):
+            f.add("net:some counter is 0")
+        if meta.get("big"):
+            f.add("net:600 interfaces (> 200 KB)")
     elif op["op"] == "disk":
         f.add("disk:" + ("perdisk" if op["perdisk"] else "total"))
         if not op["devs"]:
@@ -1490,6 +1772,14 @@ def features(op, meta):
             f.add("layout:" + x)
         if len(meta.get("layouts", [])) > 1:
             f.add("disk:mixed-layouts")
+        for x in meta.get("zeros", []):
+            f.add("disk:row with %s counters 0" % x)
+        if meta.get("idle"):
+            f.add("disk:every device idle (all counters 0)")
+        if meta.get("classname"):
+            f.add("disk:name built from a device-class prefix / random token")
+        if meta.get("big"):
+            f.add("disk:600 device lines (> 100 KB)")
     elif op["op"] in ("netraw", "diskraw", "sysfsraw"):
         f.add(op["op"] + ":" + meta["fam"])
     elif op["op"] == "sysfs":
@@ -1592,6 +1882,8 @@ def judge(op, im, mo, sp):
         return "model" if bad or len(im) != len(mo) else None
     if isinstance(mo, dict) and mo.get("kind") == "unmodelled":
         return None         # outside the model's domain (negative int(), non-ASCII token, Unicode space): counted, not judged
+    if order_free(op):
+        im, mo, sp = as_dict(im), as_dict(mo), as_dict(sp)
     if sp is not None and im != sp:
         return "spec"
     if im != mo:
@@ -1708,6 +2000,29 @@ def corpus_ops():
                     {"n": 5, "fields": 11, "parts": 3, "slash": True}))
         # neither source: NotImplementedError
         ops.append(({"op": "sysfsraw", "tree": None, "diskstats": None, "perdisk": per}, {"fam": "neither"}))
+        # idle hosts: every counter of every interface / device is 0 (the sandbox's own ifb0, loop0..7 look like this);
+        # one idle device among busy ones
+        zi = lambda name: {"name": name.hex(), "cols": [0] * 16}
+        ops.append(({"op": "net", "h1": H1.hex(), "h2": H2.hex(), "pernic": per, "ifs": [zi(b"lo"), zi(b"dummy0"), zi(b"ifb0")]},
+                    {"n": 3, "fams": ["class"], "zeros": ["all"], "idle": True}))
+        ops.append(({"op": "net", "h1": H1.hex(), "h2": H2.hex(), "pernic": per, "ifs": [iface(b"eth0", 50), zi(b"dummy0"), iface(b"wg0", 90)]},
+                    {"n": 3, "fams": ["class"], "zeros": ["all"]}))
+        z11 = [0] * 11
+        ops.append(({"op": "disk", "perdisk": per, "devs": [
+            dev(7, 0, b"loop0", False, {"k": "full", "s": z11, "ext": [0, 0, 0, 0, 0, 0]}),
+            dev(259, 0, b"pmem0", False, {"k": "full", "s": z11, "ext": [0, 0, 0, 0]}),
+            dev(259, 1, b"pmem0p1", True, {"k": "part", "v": [0, 0, 0, 0]})]},
+            {"n": 3, "layouts": ["full4", "full6", "part"], "whole": 2, "zeros": ["all"], "idle": True, "classname": True}))
+        ops.append(({"op": "disk", "perdisk": per, "devs": [
+            dev(8, 0, b"sda", False, {"k": "full", "s": s, "ext": []}),
+            dev(259, 0, b"pmem0", False, {"k": "full", "s": z11, "ext": []}),
+            dev(1, 0, b"ram0", False, {"k": "full", "s": [30 + x for x in s], "ext": []})]},
+            {"n": 3, "layouts": ["full0"], "whole": 3, "zeros": ["all"], "classname": True}))
+    # a container / storage host: 600 lines, far beyond any read-buffer or line-count constant
+    import random
+    rb = random.Random(600)
+    ops.append(big_net_case(rb, 600, True))
+    ops.append(big_disk_case(rb, 600, False))
     return ops
 
 
@@ -1796,7 +2111,9 @@ def correspond(ctx, res):
         n = ctx.n(1000, 40000)
         for i in range(n):
             r = i % 20
-            if r < 5:
+            if i % 400 == 399:
+                o, m = (big_net_case if (i // 400) % 2 else big_disk_case)(ctx.rng, ctx.rng.randrange(41, 700), ctx.rng.random() < 0.5)
+            elif r < 5:
                 o, m = gen_disk_case(ctx.rng)
             elif r < 9:
                 o, m = gen_net_case(ctx.rng)
@@ -1846,7 +2163,8 @@ def correspond(ctx, res):
             if isinstance(im, dict) and im.get("kind"):
                 res.count("impl:" + im["kind"] + (":" + im["exc"] if im.get("kind") == "exc" else ""))
             if "n" in m:
-                res.count("size:%s" % ("0" if m["n"] == 0 else "1" if m["n"] == 1 else "2-8" if m["n"] <= 8 else "9-40"))
+                res.count("size:%s" % ("0" if m["n"] == 0 else "1" if m["n"] == 1 else "2-8" if m["n"] <= 8 else "9-40"
+                                       if m["n"] <= 40 else "41-600"))
             if o["op"] == "usage" and o["st"][0] == o["st"][1]:
                 res.count("usage:f_bsize == f_frsize (must stay 0)")
             nontrivial = (o["op"] == "usage" and o["st"][2] > 0) or \
@@ -1915,10 +2233,16 @@ def live_check(ctx, impl, res):
         with open("/proc/diskstats", "rb") as f:
             raw = f.read()
         devs = []
+        try:
+            whole = set(os.fsencode(x) for x in impl.real_listdir("/sys/block"))
+        except OSError:
+            whole = None
         for l in raw.split(b"\n")[:-1]:
             t = l.split()
             assert len(t) in (14, 18, 20)
-            devs.append({"major": int(t[0]), "minor": int(t[1]), "name": t[2].hex(), "part": False,
+            # whole disk = listed in the live /sys/block (none listed when /sys/block cannot be read)
+            part = whole is None or t[2].replace(b"/", b"!") not in whole
+            devs.append({"major": int(t[0]), "minor": int(t[1]), "name": t[2].hex(), "part": part,
                          "rec": {"k": "full", "s": [int(x) for x in t[3:14]], "ext": [int(x) for x in t[14:]]}})
         ops.append(("disk", raw, {"op": "disk", "devs": devs, "perdisk": True}))
     except Exception as e:  # noqa: BLE001
@@ -1930,6 +2254,26 @@ def live_check(ctx, impl, res):
             out[kind] = {"lines": len(o.get("ifs", o.get("devs", []))), "byte_identical": same}
             if not same:
                 res.notes.append("live %s: the Lean renderer does not reproduce the sandbox kernel's file byte for byte" % kind)
+        # the REAL psutil functions on the live content (the bytes just read, served through the fake procfs; whole disks =
+        # the live /sys/block listing), both forms: the sandbox's interfaces / loop devices are idle (all counters 0)
+        live_ops = []
+        for kind, raw, o in ops:
+            key = "pernic" if kind == "net" else "perdisk"
+            for per in (True, False):
+                live_ops.append(dict(o, **{key: per}))
+        results, _ = run_ops(ctx, impl, live_ops)
+        for o, (im, mo, sp, _a) in zip(live_ops, results):
+            res.count("live:psutil.%s_io_counters on the sandbox's own /proc content" % o["op"])
+            rows = o.get("ifs") or [{"cols": d["rec"]["s"] + d["rec"]["ext"]} for d in o.get("devs", [])]
+            if any(all(c == 0 for c in r["cols"]) for r in rows):
+                res.count("live:content has an all-zero row")
+            res.case(dict(o, _live=True), nontrivial=bool(rows))
+            v = judge(o, im, mo, sp)
+            out.setdefault(o["op"], {}).setdefault("psutil_agrees", True)
+            if v is not None:
+                out[o["op"]]["psutil_agrees"] = False
+                res.disagree(v, o, im, mo, sp, note="psutil on the content of the sandbox's live /proc file differs from the %s"
+                             % ("specification" if v == "spec" else "Lean model"))
     return out
 
 
